@@ -130,7 +130,7 @@ theorem blockid_level1 (H : Bytes → Bytes) (hlen : ∀ x, (H x).length = 32) (
   have l2 : r2.length = 32 := by
     have : r2 = treeSpec H (txHash H x2.miner :: x2.hashes) := Option.some.inj (hr2.symm.trans e2)
     rw [this]; exact treeSpec_length H hlen _ (by simp) (parsed_block_leaves32 H hlen b2 x2 [] p2)
-  simp only [blockId, serializeHashable, hr1, hr2, blockIdOf_eq, Option.some.injEq] at hid
+  simp only [blockId, serializeHeaderAndRoot, hr1, hr2, blockIdOf_eq, Option.some.injEq] at hid
   generalize hP1 : blockIdPre (encHeader x1.hdr) r1 x1.hashes.length = P1 at hid ⊢
   generalize hP2 : blockIdPre (encHeader x2.hdr) r2 x2.hashes.length = P2 at hid ⊢
   by_cases hh : H P1 = H P2
@@ -387,7 +387,7 @@ theorem parsed_blockId (H : Bytes → Bytes) (correct existing : Bytes) (b : Byt
       some (if H (blockPre H x) = correct then existing else H (blockPre H x)) := by
   constructor
   · simp [hashedBlock]
-  · simp only [blockId, serializeHashable, parsed_block_txRoot H b x r h]
+  · simp only [blockId, serializeHeaderAndRoot, parsed_block_txRoot H b x r h]
     rfl
 
 /-- the miner transaction of a parsed block is strictly parsed from its own serialisation -/
